@@ -1165,3 +1165,46 @@ func goBodyRecovers(body *ssa.Function) bool {
 	})
 	return hasRec
 }
+
+// stepBoundValueAudit: every SetMaxSteps outside pkg/vm that is handed a run-time value is handed one established
+// positive (0 = unlimited to the VM). Used by C10-R9; C04-R3 makes the same test inline.
+func stepBoundValueAudit(c *Ctx, rule string) int {
+	n := 0
+	for p := range c.SSA {
+		rel := strings.TrimPrefix(p, modPath+"/")
+		if strings.HasPrefix(rel, "examples") || rel == vmPkg {
+			continue
+		}
+		for _, fn := range c.srcFuncs(rel) {
+			eachInstr(fn, func(_ *ssa.BasicBlock, _ int, ins ssa.Instruction) {
+				call, ok := ins.(*ssa.Call)
+				if !ok || callName(call) != vmPath+".VM.SetMaxSteps" {
+					return
+				}
+				n++
+				if _, isK := constInt(call.Call.Args[1]); isK {
+					return
+				}
+				arg := call.Call.Args[1]
+				q := &pathQuery{fn: fn, target: func(x ssa.Instruction) bool { return x == ins }, cutEdge: func(b *ssa.BasicBlock, si int) bool {
+					iff := ifOf(b)
+					if iff == nil {
+						return false
+					}
+					bo, ok := iff.Cond.(*ssa.BinOp)
+					if !ok || !sameVal(bo.X, arg) {
+						return false
+					}
+					v, isK := constInt(bo.Y)
+					if !isK || v < 0 {
+						return false
+					}
+					return (bo.Op == token.GTR && si == 0) || (bo.Op == token.LEQ && si == 1) || (bo.Op == token.NEQ && v == 0 && si == 0) || (bo.Op == token.EQL && v == 0 && si == 1)
+				}}
+				hit, path := q.fromEntry()
+				c.ob(rule, fnKey(fn)+"#SetMaxSteps-value-established-positive", call.Pos(), hit == nil, "SetMaxSteps is handed a run-time value that is not established positive: the VM reads 0 as `no limit`, so a setting whose zero value means `use the default` (a CLI flag that was not given) switches the step bound off - a bytecode file that does not terminate runs for ever", c.blockPath(path)...)
+			})
+		}
+	}
+	return n
+}
